@@ -171,6 +171,9 @@ func c18Oracle(c c18Case) error {
 		if t.Loc == stack.GoMod && call.Location == stack.GoMod {
 			// loose files: the module is the directory of the file
 		}
+		if t.ImportFromFunc {
+			t.Import = call.Func.ImportPath
+		}
 		if call.LocalSrcPath != t.Local || call.RelSrcPath != t.Rel || call.Location != t.Loc || call.ImportPath != t.Import {
 			return fmt.Errorf("frame %s exists locally as %s\n got  local=%q rel=%q import=%q location=%s\n want local=%q rel=%q import=%q location=%s\n roots: GOROOT=%q GOPATHs=%v gomods=%v",
 				t.Remote, t.Local, call.LocalSrcPath, call.RelSrcPath, call.ImportPath, call.Location, t.Local, t.Rel, t.Import, t.Loc, snap.RemoteGOROOT, snap.RemoteGOPATHs, snap.LocalGomods)
